@@ -81,6 +81,16 @@ def sweep_cases(ctx):
                           {"put": [{"path": "leaf.yaml", "text": json.dumps(dict(leaf1, keyAlgorithm="RSA-1024"))}], "flags": ["m", "c"]},
                           {"put": [{"path": "ca.yaml", "text": json.dumps(dict(ca, subject="CN=Req CA G2"))}], "flags": ["m", "c"]}]
             out.append(c)
+    # a PKCS#8 key of an algorithm gopki cannot use (Ed25519): it is the user's key all the same - whatever the run does
+    # (fail, most likely), the key stays in the file
+    for flags in (["m", "c"], ["a"]):
+        ca = cfg("CN=Other CA")
+        leaf = cfg("CN=Holder of an Ed25519 key", issuer="ca")
+        c = case(len(out) + 1, [("ca.yaml", ca), ("leaf.yaml", leaf)], tag={"prop": "C14", "class": "unsupported PKCS#8 key (Ed25519), flags %s" % "".join(flags), "firstMustSucceed": False})
+        c["files"].append({"path": "leaf.pem", "make": {"kind": "key", "key": "ed25519", "variant": ""}})
+        c["flags"] = flags
+        c["steps"] = [{"flags": flags}]
+        out.append(c)
     return out
 
 
